@@ -231,3 +231,180 @@ int lemma_mt_min_shortcuts(struct forest *fa, struct forest *fb, struct forest *
 void h_mt_min_kernel(void) { struct forest *fa, *fb, *fc; node_handle w_a = nondet_int(), w_b = nondet_int(); lemma_mt_min_kernel(fa, fb, fc, w_a, w_b); CANARY(); }
 void h_mt_min_shortcuts(void) { struct forest *fa, *fb, *fc; node_handle w_a = nondet_int(), w_b = nondet_int(); lemma_mt_min_shortcuts(fa, fb, fc, w_a, w_b); CANARY(); }
 
+
+int lemma_cmp_eq_mt(struct forest *fa, struct forest *fb, node_handle a, node_handle b)
+{
+    int ok = 0;
+    long av = dec_(fa, a), bv = dec_(fb, b);
+    if (eq_mt__compare(fa, a, fb, b) == (av == bv) && verif_exc == 0) ok |= 1;
+    if (eq_mt__compare(fa, a, fa, a) == eq_base__isReflexive()) ok |= 2;
+    if (!eq_base__isSymmetric() || eq_mt__compare(fa, a, fb, b) == eq_mt__compare(fb, b, fa, a)) ok |= 4;
+    return ok;
+}
+int lemma_cmp_eq_evplus(const struct edge_value *av_, node_handle ap, const struct edge_value *bv_, node_handle bp)
+{
+    int ok = 0;
+    _Bool ai = (ap == OMEGA_INFINITY), bi = (bp == OMEGA_INFINITY); long av = av_->ev_long, bv = bv_->ev_long;
+    _Bool want = ((ai && bi) || (!ai && !bi && av == bv));
+    if (eq_evplus__compare(av_, ap, bv_, bp) == want && verif_exc == 0) ok |= 1;
+    { _Bool answer = 0; if (ai && bi) ok |= 2; /* excluded by the caller (MEDDLY_DCASSERT) */
+      else if (eq_evplus__isSpecialCase(av_, ap, bv_, bp, &answer)) { if (answer == want) ok |= 2; } else ok |= 2; }
+    if (eq_evplus__compare(av_, ap, av_, ap) == eq_base__isReflexive()) ok |= 4;
+    return ok;
+}
+void h_cmp_eq_mt(void) { struct forest *fa, *fb; node_handle w_a = nondet_int(), w_b = nondet_int(); lemma_cmp_eq_mt(fa, fb, w_a, w_b); CANARY(); }
+void h_cmp_eq_evplus(void) { struct edge_value *x, *y; node_handle w_ap = nondet_int(), w_bp = nondet_int(); lemma_cmp_eq_evplus(x, w_ap, y, w_bp); CANARY(); }
+
+int lemma_cmp_ne_mt(struct forest *fa, struct forest *fb, node_handle a, node_handle b)
+{
+    int ok = 0;
+    long av = dec_(fa, a), bv = dec_(fb, b);
+    if (ne_mt__compare(fa, a, fb, b) == (av != bv) && verif_exc == 0) ok |= 1;
+    if (ne_mt__compare(fa, a, fa, a) == ne_base__isReflexive()) ok |= 2;
+    if (!ne_base__isSymmetric() || ne_mt__compare(fa, a, fb, b) == ne_mt__compare(fb, b, fa, a)) ok |= 4;
+    return ok;
+}
+int lemma_cmp_ne_evplus(const struct edge_value *av_, node_handle ap, const struct edge_value *bv_, node_handle bp)
+{
+    int ok = 0;
+    _Bool ai = (ap == OMEGA_INFINITY), bi = (bp == OMEGA_INFINITY); long av = av_->ev_long, bv = bv_->ev_long;
+    _Bool want = !((ai && bi) || (!ai && !bi && av == bv));
+    if (ne_evplus__compare(av_, ap, bv_, bp) == want && verif_exc == 0) ok |= 1;
+    { _Bool answer = 0; if (ai && bi) ok |= 2; /* excluded by the caller (MEDDLY_DCASSERT) */
+      else if (ne_evplus__isSpecialCase(av_, ap, bv_, bp, &answer)) { if (answer == want) ok |= 2; } else ok |= 2; }
+    if (ne_evplus__compare(av_, ap, av_, ap) == ne_base__isReflexive()) ok |= 4;
+    return ok;
+}
+void h_cmp_ne_mt(void) { struct forest *fa, *fb; node_handle w_a = nondet_int(), w_b = nondet_int(); lemma_cmp_ne_mt(fa, fb, w_a, w_b); CANARY(); }
+void h_cmp_ne_evplus(void) { struct edge_value *x, *y; node_handle w_ap = nondet_int(), w_bp = nondet_int(); lemma_cmp_ne_evplus(x, w_ap, y, w_bp); CANARY(); }
+
+int lemma_cmp_gt_mt(struct forest *fa, struct forest *fb, node_handle a, node_handle b)
+{
+    int ok = 0;
+    long av = dec_(fa, a), bv = dec_(fb, b);
+    if (gt_mt__compare(fa, a, fb, b) == (av > bv) && verif_exc == 0) ok |= 1;
+    if (gt_mt__compare(fa, a, fa, a) == gt_base__isReflexive()) ok |= 2;
+    if (!gt_base__isSymmetric() || gt_mt__compare(fa, a, fb, b) == gt_mt__compare(fb, b, fa, a)) ok |= 4;
+    return ok;
+}
+int lemma_cmp_gt_evplus(const struct edge_value *av_, node_handle ap, const struct edge_value *bv_, node_handle bp)
+{
+    int ok = 0;
+    _Bool ai = (ap == OMEGA_INFINITY), bi = (bp == OMEGA_INFINITY); long av = av_->ev_long, bv = bv_->ev_long;
+    _Bool want = (!bi && (ai || av > bv));
+    if (gt_evplus__compare(av_, ap, bv_, bp) == want && verif_exc == 0) ok |= 1;
+    { _Bool answer = 0; if (ai && bi) ok |= 2; /* excluded by the caller (MEDDLY_DCASSERT) */
+      else if (gt_evplus__isSpecialCase(av_, ap, bv_, bp, &answer)) { if (answer == want) ok |= 2; } else ok |= 2; }
+    if (gt_evplus__compare(av_, ap, av_, ap) == gt_base__isReflexive()) ok |= 4;
+    return ok;
+}
+void h_cmp_gt_mt(void) { struct forest *fa, *fb; node_handle w_a = nondet_int(), w_b = nondet_int(); lemma_cmp_gt_mt(fa, fb, w_a, w_b); CANARY(); }
+void h_cmp_gt_evplus(void) { struct edge_value *x, *y; node_handle w_ap = nondet_int(), w_bp = nondet_int(); lemma_cmp_gt_evplus(x, w_ap, y, w_bp); CANARY(); }
+
+int lemma_cmp_ge_mt(struct forest *fa, struct forest *fb, node_handle a, node_handle b)
+{
+    int ok = 0;
+    long av = dec_(fa, a), bv = dec_(fb, b);
+    if (ge_mt__compare(fa, a, fb, b) == (av >= bv) && verif_exc == 0) ok |= 1;
+    if (ge_mt__compare(fa, a, fa, a) == ge_base__isReflexive()) ok |= 2;
+    if (!ge_base__isSymmetric() || ge_mt__compare(fa, a, fb, b) == ge_mt__compare(fb, b, fa, a)) ok |= 4;
+    return ok;
+}
+int lemma_cmp_ge_evplus(const struct edge_value *av_, node_handle ap, const struct edge_value *bv_, node_handle bp)
+{
+    int ok = 0;
+    _Bool ai = (ap == OMEGA_INFINITY), bi = (bp == OMEGA_INFINITY); long av = av_->ev_long, bv = bv_->ev_long;
+    _Bool want = (ai || (!bi && av >= bv));
+    if (ge_evplus__compare(av_, ap, bv_, bp) == want && verif_exc == 0) ok |= 1;
+    { _Bool answer = 0; if (ai && bi) ok |= 2; /* excluded by the caller (MEDDLY_DCASSERT) */
+      else if (ge_evplus__isSpecialCase(av_, ap, bv_, bp, &answer)) { if (answer == want) ok |= 2; } else ok |= 2; }
+    if (ge_evplus__compare(av_, ap, av_, ap) == ge_base__isReflexive()) ok |= 4;
+    return ok;
+}
+void h_cmp_ge_mt(void) { struct forest *fa, *fb; node_handle w_a = nondet_int(), w_b = nondet_int(); lemma_cmp_ge_mt(fa, fb, w_a, w_b); CANARY(); }
+void h_cmp_ge_evplus(void) { struct edge_value *x, *y; node_handle w_ap = nondet_int(), w_bp = nondet_int(); lemma_cmp_ge_evplus(x, w_ap, y, w_bp); CANARY(); }
+
+int lemma_cmp_lt_mt(struct forest *fa, struct forest *fb, node_handle a, node_handle b)
+{
+    int ok = 0;
+    long av = dec_(fa, a), bv = dec_(fb, b);
+    if (lt_mt__compare(fa, a, fb, b) == (av < bv) && verif_exc == 0) ok |= 1;
+    if (lt_mt__compare(fa, a, fa, a) == lt_base__isReflexive()) ok |= 2;
+    if (!lt_base__isSymmetric() || lt_mt__compare(fa, a, fb, b) == lt_mt__compare(fb, b, fa, a)) ok |= 4;
+    return ok;
+}
+int lemma_cmp_lt_evplus(const struct edge_value *av_, node_handle ap, const struct edge_value *bv_, node_handle bp)
+{
+    int ok = 0;
+    _Bool ai = (ap == OMEGA_INFINITY), bi = (bp == OMEGA_INFINITY); long av = av_->ev_long, bv = bv_->ev_long;
+    _Bool want = (!ai && (bi || av < bv));
+    if (lt_evplus__compare(av_, ap, bv_, bp) == want && verif_exc == 0) ok |= 1;
+    { _Bool answer = 0; if (ai && bi) ok |= 2; /* excluded by the caller (MEDDLY_DCASSERT) */
+      else if (lt_evplus__isSpecialCase(av_, ap, bv_, bp, &answer)) { if (answer == want) ok |= 2; } else ok |= 2; }
+    if (lt_evplus__compare(av_, ap, av_, ap) == lt_base__isReflexive()) ok |= 4;
+    return ok;
+}
+void h_cmp_lt_mt(void) { struct forest *fa, *fb; node_handle w_a = nondet_int(), w_b = nondet_int(); lemma_cmp_lt_mt(fa, fb, w_a, w_b); CANARY(); }
+void h_cmp_lt_evplus(void) { struct edge_value *x, *y; node_handle w_ap = nondet_int(), w_bp = nondet_int(); lemma_cmp_lt_evplus(x, w_ap, y, w_bp); CANARY(); }
+
+int lemma_cmp_le_mt(struct forest *fa, struct forest *fb, node_handle a, node_handle b)
+{
+    int ok = 0;
+    long av = dec_(fa, a), bv = dec_(fb, b);
+    if (le_mt__compare(fa, a, fb, b) == (av <= bv) && verif_exc == 0) ok |= 1;
+    if (le_mt__compare(fa, a, fa, a) == le_base__isReflexive()) ok |= 2;
+    if (!le_base__isSymmetric() || le_mt__compare(fa, a, fb, b) == le_mt__compare(fb, b, fa, a)) ok |= 4;
+    return ok;
+}
+int lemma_cmp_le_evplus(const struct edge_value *av_, node_handle ap, const struct edge_value *bv_, node_handle bp)
+{
+    int ok = 0;
+    _Bool ai = (ap == OMEGA_INFINITY), bi = (bp == OMEGA_INFINITY); long av = av_->ev_long, bv = bv_->ev_long;
+    _Bool want = (bi || (!ai && av <= bv));
+    if (le_evplus__compare(av_, ap, bv_, bp) == want && verif_exc == 0) ok |= 1;
+    { _Bool answer = 0; if (ai && bi) ok |= 2; /* excluded by the caller (MEDDLY_DCASSERT) */
+      else if (le_evplus__isSpecialCase(av_, ap, bv_, bp, &answer)) { if (answer == want) ok |= 2; } else ok |= 2; }
+    if (le_evplus__compare(av_, ap, av_, ap) == le_base__isReflexive()) ok |= 4;
+    return ok;
+}
+void h_cmp_le_mt(void) { struct forest *fa, *fb; node_handle w_a = nondet_int(), w_b = nondet_int(); lemma_cmp_le_mt(fa, fb, w_a, w_b); CANARY(); }
+void h_cmp_le_evplus(void) { struct edge_value *x, *y; node_handle w_ap = nondet_int(), w_bp = nondet_int(); lemma_cmp_le_evplus(x, w_ap, y, w_bp); CANARY(); }
+
+int lemma_evplus_mult_kernel(const struct edge_value *av_, node_handle ap, const struct edge_value *bv_, node_handle bp)
+{
+    _Bool ai = (ap == OMEGA_INFINITY), bi = (bp == OMEGA_INFINITY); long av = av_->ev_long, bv = bv_->ev_long;
+    struct edge_value cv; node_handle cn = 12345; cv.mytype = edge_type__VOID;
+    evplus_mult__apply(av_, ap, bv_, bp, &cv, &cn);
+    int exc = verif_exc; verif_exc = 0;
+    if (ai || bi) return exc == 0 && cn == OMEGA_INFINITY;
+    return exc == 0 && cn == OMEGA_NORMAL && cv.mytype == edge_type__LONG && cv.ev_long == av * bv;
+}
+void h_evplus_mult_kernel(void) { struct edge_value *x, *y; node_handle w_ap = nondet_int(), w_bp = nondet_int(); lemma_evplus_mult_kernel(x, w_ap, y, w_bp); CANARY(); }
+
+int lemma_evplus_div_kernel(const struct edge_value *av_, node_handle ap, const struct edge_value *bv_, node_handle bp)
+{
+    _Bool ai = (ap == OMEGA_INFINITY), bi = (bp == OMEGA_INFINITY); long av = av_->ev_long, bv = bv_->ev_long;
+    struct edge_value cv; node_handle cn = 12345; cv.mytype = edge_type__VOID;
+    evplus_div__apply(av_, ap, bv_, bp, &cv, &cn);
+    int exc = verif_exc; verif_exc = 0;
+    if (bi && ai) return exc == ERR_INFINITY_DIV_INFINITY;                 /* infinity over infinity: documented error */
+    if (bi) return exc == 0 && cn == OMEGA_NORMAL && cv.mytype == edge_type__LONG && cv.ev_long == 0;   /* x over infinity */
+    if (bv == 0) return exc == ERR_DIVIDE_BY_ZERO;                          /* zero divisor: documented error, also for an infinite dividend */
+    if (ai) return exc == 0 && cn == OMEGA_INFINITY;
+    return exc == 0 && cn == OMEGA_NORMAL && cv.mytype == edge_type__LONG && cv.ev_long == av / bv;
+}
+void h_evplus_div_kernel(void) { struct edge_value *x, *y; node_handle w_ap = nondet_int(), w_bp = nondet_int(); lemma_evplus_div_kernel(x, w_ap, y, w_bp); CANARY(); }
+
+int lemma_evplus_mod_kernel(const struct edge_value *av_, node_handle ap, const struct edge_value *bv_, node_handle bp)
+{
+    _Bool ai = (ap == OMEGA_INFINITY), bi = (bp == OMEGA_INFINITY); long av = av_->ev_long, bv = bv_->ev_long;
+    struct edge_value cv; node_handle cn = 12345; cv.mytype = edge_type__VOID;
+    evplus_mod__apply(av_, ap, bv_, bp, &cv, &cn);
+    int exc = verif_exc; verif_exc = 0;
+    if (bi && ai) return exc == ERR_INFINITY_DIV_INFINITY;                 /* infinity over infinity: documented error */
+    if (bi) return exc == 0 && cn == OMEGA_NORMAL && cv.mytype == edge_type__LONG && cv.ev_long == av;   /* x over infinity */
+    if (bv == 0) return exc == ERR_DIVIDE_BY_ZERO;                          /* zero divisor: documented error, also for an infinite dividend */
+    if (ai) return exc == 0 && cn == OMEGA_INFINITY;
+    return exc == 0 && cn == OMEGA_NORMAL && cv.mytype == edge_type__LONG && cv.ev_long == av % bv;
+}
+void h_evplus_mod_kernel(void) { struct edge_value *x, *y; node_handle w_ap = nondet_int(), w_bp = nondet_int(); lemma_evplus_mod_kernel(x, w_ap, y, w_bp); CANARY(); }
